@@ -159,6 +159,76 @@ func TestC07(t *testing.T) {
 				failRapid(rt, r, caseOf("C07", "sweep", bad, ferr), ferr)
 			}
 		})
+		// 3b. member counts and key lengths round powers of two (field-name slices, stack growth,
+		// per-member bookkeeping): n members x key length L, every third member a container
+		if e.enumStage("sizes", "arrays and objects with n members (0..20, 2^k-1..2^k+1 up to 4097, 65535..65537) x key length in {1, 7, 8, 9, 255, 256, 4096, 65536} (objects), scalars with every third member a small container; strategies decline-all / exact-all / alternating", true) {
+			var ns []int
+			for n := 0; n <= 20; n++ {
+				ns = append(ns, n)
+			}
+			for k := 5; k <= 12; k++ {
+				ns = append(ns, 1<<uint(k)-1, 1<<uint(k), 1<<uint(k)+1)
+			}
+			ns = append(ns, 1<<16-1, 1<<16, 1<<16+1)
+			idx := 0
+		sizes:
+			for _, n := range ns {
+				for _, kl := range []int{0, 1, 7, 8, 9, 255, 256, 4096, 65536} {
+					idx++
+					if !e.cfg.Mine(idx) {
+						continue
+					}
+					if kl > 256 && n > 40 || kl > 9 && n > 4097 {
+						continue // keep documents under a few megabytes
+					}
+					var b []byte
+					open, cl := byte('['), byte(']')
+					if kl > 0 {
+						open, cl = '{', '}'
+					}
+					b = append(b, open)
+					for i := 0; i < n; i++ {
+						if i > 0 {
+							b = append(b, ',')
+						}
+						if kl > 0 {
+							b = append(b, '"')
+							for j := 0; j < kl; j++ {
+								b = append(b, byte('a'+(i+j)%26))
+							}
+							b = append(b, '"', ':')
+						}
+						switch i % 3 {
+						case 0:
+							b = append(b, '1', '2')
+						case 1:
+							b = append(b, `"v\n"`...)
+						default:
+							b = append(b, `[{"k":[]}]`...)
+						}
+					}
+					b = append(b, cl)
+					r.Begin("sizes", b)
+					err := core.Catch(func() error {
+						for _, bits := range []uint64{0, ^uint64(0), 0xAAAAAAAAAAAAAAAA} {
+							if err := one("sizes", b, open, bits); err != nil {
+								return err
+							}
+						}
+						return nil
+					})
+					if err != nil {
+						r.Fail(caseOf("C07", "sizes", b, err), err)
+						break sizes
+					}
+				}
+			}
+		}
+		// 3c. shared byte-level generators: token runs at every alignment, corruption at chunk
+		// boundaries of long documents, pretty-printed depth shapes
+		e.feed(feedOpts{alignment: true, boundaries: true, boundaryQ: 1, indentQ: 8, indentT: 200}, func(kind string, in []byte) error {
+			return eval(kind, in, 0x9E3779B97F4A7C15)
+		})
 		// 4. deep members at the property's bound: a 10,000-deep document
 		if e.enumStage("deep", "containers whose member nests to total depth 9999/10000 in 7 mixtures, all-decline / all-exact / mixed", true) {
 		deep:
